@@ -40,6 +40,7 @@ def clone(node):
     return new
 
 PURE_CALLS = {"len", "abs", "isinstance", "min", "max", "int", "float", "bool", "str"}
+ITER_CALLS = {"any", "all", "sum", "sorted", "list", "tuple", "set", "enumerate", "zip", "reversed", "range", "iter", "next"}   # consume iterables, mutate nothing of ours
 JUMPS = (ast.Return, ast.Raise, ast.Continue, ast.Break)
 
 
@@ -512,6 +513,12 @@ def inline_new_helpers(tree, ref_mod, known_names):
         if remaining.get(f, 0) == 0:
             h.fn._folded = True
     stats["folded"] = sorted(f for (c, f), h in helpers.items() if getattr(h.fn, "_folded", False))
+    # ... and is removed from the tree, so that who-may-call / who-may-write / sibling rules see the program as it was
+    # before the extraction (a caller in another module would become an unresolved call: silent, or a D3 report)
+    gone = {id(h.fn) for h in helpers.values() if getattr(h.fn, "_folded", False)}
+    if gone:
+        for holder in [tree] + [n for n in tree.body if isinstance(n, ast.ClassDef)]:
+            holder.body = [n for n in holder.body if id(n) not in gone] or [ast.Pass()]
     ast.fix_missing_locations(tree)
     return stats
 
@@ -601,8 +608,37 @@ def _find_assign(body, store):
     return None
 
 
+def _try_context(fn, target):
+    """chain of (Try node id, part) enclosing `target` inside fn: substituting an expression across a try boundary would
+    move where its exceptions are (or are not) caught"""
+    path = []
+
+    def rec(node, ctx):
+        if node is target:
+            path.append(tuple(ctx))
+            return True
+        for fld, val in ast.iter_fields(node):
+            items = val if isinstance(val, list) else [val]
+            for it in items:
+                if isinstance(it, ast.AST):
+                    c2 = ctx
+                    if isinstance(node, ast.Try) and fld in ("body", "orelse", "finalbody", "handlers"):
+                        c2 = ctx + [(id(node), fld if fld != "handlers" else "h%d" % node.handlers.index(it))]
+                    if isinstance(it, (ast.FunctionDef, ast.AsyncFunctionDef, ast.Lambda, ast.ClassDef)):
+                        continue
+                    if rec(it, c2):
+                        return True
+        return False
+    rec(fn, [])
+    return path[0] if path else None
+
+
 def _safe_everywhere(fn, asg, v, e, loads):
     from .cfg import CFG
+    base = _try_context(fn, asg)
+    for ld in loads:
+        if _try_context(fn, ld) != base:
+            return False
     try:
         g = CFG(fn)
     except Exception:
@@ -632,7 +668,7 @@ def _safe_everywhere(fn, asg, v, e, loads):
         for x in g.walk_node(n):
             if isinstance(x, ast.Name) and isinstance(x.ctx, (ast.Store, ast.Del)) and x.id in names:
                 kills = True
-            elif attrs and isinstance(x, ast.Call) and not (isinstance(x.func, ast.Name) and x.func.id in PURE_CALLS):
+            elif attrs and isinstance(x, ast.Call) and not (isinstance(x.func, ast.Name) and x.func.id in PURE_CALLS | ITER_CALLS):
                 kills = True
             elif attrs and isinstance(x, (ast.Attribute, ast.Subscript)) and isinstance(x.ctx, (ast.Store, ast.Del)):
                 kills = True
